@@ -224,8 +224,15 @@ func propC10(ch core.Chooser, st *core.Stats) error {
 	backups := ch.Int("backups", 0, 2)
 	withClose := core.Pct(ch, "racing_close", 75)
 	closeAfter := ch.Int("close_after_pct", 0, 110) // percentage of the workers' operations after which Close is issued
-	ch.Note("fs=%s %s bgsync=%dms bgcompact=%dms workers=%d ops=%d compacts=%d syncs=%d scans=%d filesizes=%d backups=%d close=%v after %d%%",
-		kind, cfg, bgSync, bgCompact, nw, total, compacts, syncs, scans, sizes, backups, withClose, closeAfter)
+	// further Close calls on the same handle: racing with the first one or issued after it
+	// returned. Close is a public method like any other: it may fail, it must not panic.
+	extraClosers := 0
+	if core.Pct(ch, "more_closers", 40) {
+		extraClosers = ch.Int("extra_closers", 1, 2)
+	}
+	extraConcurrent := core.Bool(ch, "extra_closers_concurrent")
+	ch.Note("fs=%s %s bgsync=%dms bgcompact=%dms workers=%d ops=%d compacts=%d syncs=%d scans=%d filesizes=%d backups=%d close=%v after %d%% further Close calls=%d (concurrent=%v)",
+		kind, cfg, bgSync, bgCompact, nw, total, compacts, syncs, scans, sizes, backups, withClose, closeAfter, extraClosers, extraConcurrent)
 
 	var wg sync.WaitGroup
 	start := make(chan struct{})
@@ -334,6 +341,45 @@ func propC10(ch core.Chooser, st *core.Stats) error {
 	})
 	var closeCall, closeRet int64
 	var closeErr error
+	var closeMu sync.Mutex
+	var closeErrs []error
+	// oneClose calls Close and keeps its result; closeAll is what "the application closes the
+	// database" means here: one call, or several on the same handle.
+	oneClose := func() {
+		err := core.Safe(func() error { return db.Close() })
+		closeMu.Lock()
+		closeErrs = append(closeErrs, err)
+		closeMu.Unlock()
+	}
+	closeAll := func() {
+		var cwg sync.WaitGroup
+		if extraConcurrent {
+			for i := 0; i < extraClosers; i++ {
+				cwg.Add(1)
+				go func() { defer cwg.Done(); debug.SetPanicOnFault(true); oneClose() }()
+			}
+		}
+		oneClose()
+		cwg.Wait()
+		if !extraConcurrent {
+			for i := 0; i < extraClosers; i++ {
+				oneClose()
+			}
+		}
+		// the call that found the database open is expected to succeed (healthy file system);
+		// the others may fail, none may panic
+		closeErr = closeErrs[0]
+		for _, e := range closeErrs {
+			if e == nil {
+				closeErr = nil
+			}
+		}
+		for _, e := range closeErrs {
+			if e != nil && strings.HasPrefix(e.Error(), "panic:") {
+				closeErr = fmt.Errorf("one of %d Close calls on the handle: %v", len(closeErrs), e)
+			}
+		}
+	}
 	closedWhileParked := false
 	closed := make(chan struct{})
 	if withClose {
@@ -357,7 +403,7 @@ func propC10(ch core.Chooser, st *core.Stats) error {
 			atomic.StoreInt32(&closedFlag, 1)
 			returned := make(chan struct{})
 			go func() {
-				closeErr = core.Safe(func() error { return db.Close() })
+				closeAll()
 				close(returned)
 			}()
 			if parkBg {
@@ -417,7 +463,7 @@ func propC10(ch core.Chooser, st *core.Stats) error {
 	}
 	if !withClose {
 		closeCall = c.h.now()
-		closeErr = core.Safe(func() error { return db.Close() })
+		closeAll()
 		closeRet = c.h.now()
 	}
 	if closeErr != nil {
@@ -507,6 +553,18 @@ func propC10(ch core.Chooser, st *core.Stats) error {
 	}
 	_ = closedWhileParked
 	st.Count("ops", int64(len(ops)))
+	if extraClosers > 0 {
+		if extraConcurrent {
+			st.Count("runs_with_concurrent_further_close_calls", 1)
+		} else {
+			st.Count("runs_with_further_close_calls_after_the_first", 1)
+		}
+		for _, e := range closeErrs {
+			if e != nil {
+				st.Count("further_close_calls_refused", 1)
+			}
+		}
+	}
 	failed := 0
 	for _, o := range ops {
 		if o.Err != "" {
